@@ -94,6 +94,22 @@ impl LibraryRenderer {
     fn outdent(&mut self) {
         self.indents -= 1;
     }
+
+    /// Writes a statement list at a place where the grammar requires at least
+    /// one statement. An empty list is written as the empty statement.
+    fn visit_required_stmts(
+        &mut self,
+        stmts: &[dsl::textual::StmtKind],
+    ) -> Result<(), Diagnostic> {
+        if stmts.is_empty() {
+            self.write_ws(";");
+            self.newline();
+        }
+        for item in stmts.iter() {
+            self.visit_stmt_kind(item)?;
+        }
+        Ok(())
+    }
 }
 
 impl Visitor<Diagnostic> for LibraryRenderer {
@@ -765,9 +781,7 @@ impl Visitor<Diagnostic> for LibraryRenderer {
         }
 
         self.indent();
-        for stmt in node.body.iter() {
-            self.visit_stmt_kind(stmt)?;
-        }
+        self.visit_required_stmts(&node.body)?;
         self.outdent();
 
         self.write_ws("END_FUNCTION");
@@ -1262,9 +1276,7 @@ impl Visitor<Diagnostic> for LibraryRenderer {
         self.newline();
 
         self.indent();
-        for item in node.body.iter() {
-            self.visit_stmt_kind(item)?;
-        }
+        self.visit_required_stmts(&node.body)?;
         self.outdent();
 
         self.write_ws("UNTIL");
@@ -1320,9 +1332,7 @@ impl Visitor<Diagnostic> for LibraryRenderer {
         self.newline();
 
         self.indent();
-        for item in node.body.iter() {
-            self.visit_stmt_kind(item)?;
-        }
+        self.visit_required_stmts(&node.body)?;
         self.outdent();
 
         Ok(())
@@ -1401,9 +1411,7 @@ impl Visitor<Diagnostic> for LibraryRenderer {
         self.newline();
 
         self.indent();
-        for item in node.body.iter() {
-            self.visit_stmt_kind(item)?;
-        }
+        self.visit_required_stmts(&node.body)?;
         self.outdent();
 
         self.write_ws("END_FOR");
@@ -1420,9 +1428,7 @@ impl Visitor<Diagnostic> for LibraryRenderer {
         self.newline();
 
         self.indent();
-        for item in node.body.iter() {
-            self.visit_stmt_kind(item)?;
-        }
+        self.visit_required_stmts(&node.body)?;
         self.outdent();
 
         self.write_ws("END_WHILE");
